@@ -17,10 +17,13 @@ use serde_json::{json, Value};
 
 /// Root of the verification tree. `VERIF_OUT_DIR` redirects run-time outputs (evidence,
 /// replays) for scratch runs (sensitivity experiments); inputs always come from /verif.
-pub const VERIF_DIR: &str = "/verif";
+/// Root of the verification tree: where `check` lives (exported by it as VERIF_ROOT), else /verif.
+pub fn verif_dir() -> String {
+    std::env::var("VERIF_ROOT").unwrap_or_else(|_| "/verif".to_string())
+}
 
 pub fn out_dir() -> String {
-    std::env::var("VERIF_OUT_DIR").unwrap_or_else(|_| VERIF_DIR.to_string())
+    std::env::var("VERIF_OUT_DIR").unwrap_or_else(|_| verif_dir())
 }
 
 #[derive(Clone, Copy, PartialEq, Eq, Debug)]
@@ -77,7 +80,7 @@ impl Ctx {
 }
 
 pub fn load_known_findings() -> Vec<KnownFinding> {
-    let path = format!("{VERIF_DIR}/known_findings.json");
+    let path = format!("{}/known_findings.json", verif_dir());
     let Ok(text) = std::fs::read_to_string(&path) else {
         return Vec::new();
     };
